@@ -40,7 +40,7 @@ func init() {
 				}
 				if se, ok := ce.Fun.(*ast.SelectorExpr); ok && se.Sel.Name == "Format" && len(ce.Args) == 1 {
 					if s, ok := strLit(ce.Args[0]); ok && s == "2006-01-02" {
-						sites = append(sites, site{fmt.Sprintf("%s:%s", rel, exprText(se.X)), isUTC(se.X)})
+						sites = append(sites, site{fmt.Sprintf("%s:%s", rel, dsExprText(se.X)), isUTC(se.X)})
 					}
 				}
 				name := ""
@@ -51,7 +51,7 @@ func init() {
 					name = fn.Sel.Name
 				}
 				if name == "FormatFromDate" && len(ce.Args) == 1 {
-					t := exprText(ce.Args[0])
+					t := dsExprText(ce.Args[0])
 					if strings.HasSuffix(t, ".To") || strings.HasSuffix(t, "To") || strings.Contains(strings.ToLower(t), "end") {
 						fromDateOfTo = append(fromDateOfTo, fmt.Sprintf("%s:%s", rel, t))
 					}
@@ -87,14 +87,14 @@ func init() {
 	})
 }
 
-func exprText(e ast.Expr) string {
+func dsExprText(e ast.Expr) string {
 	switch x := e.(type) {
 	case *ast.Ident:
 		return x.Name
 	case *ast.SelectorExpr:
-		return exprText(x.X) + "." + x.Sel.Name
+		return dsExprText(x.X) + "." + x.Sel.Name
 	case *ast.CallExpr:
-		return exprText(x.Fun) + "(…)"
+		return dsExprText(x.Fun) + "(…)"
 	default:
 		return "?"
 	}
